@@ -192,6 +192,10 @@ inline Rational ratFromString(const char* desc)
             res = Rational(desc + 1);
          else
             res = Rational(desc);
+
+         // the string constructor stores "1/0" as it is, but every operation on such a number is undefined
+         if(denominator(res) <= 0)
+            throw std::invalid_argument("denominator of a rational number must be positive");
       }
       /* case 2: string is given as base-10 decimal number */
       else
